@@ -529,3 +529,35 @@ Proof.
   split; [|vm_compute; split; reflexivity].
   eexists. eexists. split; [vm_compute; reflexivity|]. split; [intros e; discriminate|reflexivity].
 Qed.
+
+(* the witness environment satisfies the hypothesis of the theorem: every name that is found has a value without missing macros *)
+Lemma mx_w_env2_lookup n :
+  fst (fst (mx_resolve_macro mx_w_env2 n)) = true ->
+  mx_resolve_macro mx_w_env2 n = (true, MxStr [118; 32; 39], true) \/
+  mx_resolve_macro mx_w_env2 n = (true, MxArr [MxStr [120]; MxStr [121; 32; 122]], true) \/
+  mx_resolve_macro mx_w_env2 n = (true, MxDict [], false).
+Proof.
+  unfold mx_resolve_macro.
+  destruct (mx_split_any [mx_ch_dot] n []) as [|t0 [|t1 r]].
+  - cbn. destruct (mx_beq n [97]); [intros _; left; reflexivity|].
+    destruct (mx_beq n [98]); [intros _; right; left; reflexivity|].
+    intros _. right. right. reflexivity.
+  - cbn. destruct (mx_beq n [97]); [intros _; left; reflexivity|].
+    destruct (mx_beq n [98]); [intros _; right; left; reflexivity|].
+    cbn. discriminate.
+  - cbn [mx_lookup_levels mx_w_env2 mx_lv_name mx_lv_short mx_lv_vars mx_lv_macros mx_lv_fields].
+    destruct (negb (mx_beq t0 []) && negb (mx_beq t0 [104; 111; 115; 116])); [cbn; discriminate|].
+    destruct (mx_beq t0 []); cbn.
+    + destruct (mx_beq n [97]); [intros _; left; reflexivity|].
+      destruct (mx_beq n [98]); [intros _; right; left; reflexivity|].
+      cbn. discriminate.
+    + discriminate.
+Qed.
+
+Lemma mx_w_env2_no_nested_missing : mx_no_nested_missing mx_w_env2 2.
+Proof.
+  intros n v m Hf Hp. unfold mx_pre, mx_found, mx_rlookup in *.
+  destruct (mx_beq n []).
+  { vm_compute in Hp. injection Hp as _ <-. reflexivity. }
+  destruct (mx_w_env2_lookup n Hf) as [E|[E|E]]; rewrite E in Hp; vm_compute in Hp; injection Hp as _ <-; reflexivity.
+Qed.
